@@ -420,6 +420,10 @@ def discharge_by_guard(p, s):
         for key, possible in excluded.items():
             if not possible:
                 return "unreachable: the preceding tests on %s exclude every variant of the enum" % show(key, 3)
+    if decl in ("alloc::vec::Vec::<T, A>::drain", "alloc::string::String::drain") and len(s.ops) > 1:
+        rg = strip(s.ops[1])
+        if rg[0] == "agg" and rg[1].endswith("RangeFull"):
+            return "drain(..) over the full range cannot be out of bounds"
     if decl == "rand::rng::Rng::gen_range":
         rngs = [x for a in s.ops for x in walk(a) if x[0] == "agg" and x[1].endswith("::Range")]
         if rngs:
